@@ -240,7 +240,7 @@ func (w *World) Dial(ctx context.Context, network, addr string) (net.Conn, error
 	if err != nil {
 		return nil, err
 	}
-	s.l.conns <- sv
+	s.l.conns <- wrapQuit(sv, s.script)
 	return cl, nil
 }
 
@@ -450,6 +450,46 @@ func (w *World) AddUnix(sc Script, path string) (func(), error) {
 	s.srv.AllowInsecureAuth = true
 	s.srv.ReadTimeout = 30 * time.Second
 	s.srv.WriteTimeout = 30 * time.Second
-	go s.srv.Serve(l)
+	go s.srv.Serve(quitListener{l, sc})
 	return func() { l.Close(); s.srv.Close() }, nil
+}
+
+// ---- QUIT stage -------------------------------------------------------------------------------------
+
+// go-smtp answers QUIT itself; to script a next hop that drops the connection
+// instead of answering QUIT (or answers 421), the server side of the connection
+// is wrapped: when a chunk read from the client starts with "QUIT" the script's
+// Drop("quit", "") is asked and, if it says so, the connection is closed.
+type quitConn struct {
+	net.Conn
+	sc Script
+}
+
+func wrapQuit(c net.Conn, sc Script) net.Conn {
+	if sc.Drop == nil {
+		return c
+	}
+	return &quitConn{Conn: c, sc: sc}
+}
+
+func (q *quitConn) Read(b []byte) (int, error) {
+	n, err := q.Conn.Read(b)
+	if n >= 4 && strings.EqualFold(string(b[:4]), "QUIT") && q.sc.Drop("quit", "") {
+		q.Conn.Close()
+		return 0, io.EOF
+	}
+	return n, err
+}
+
+type quitListener struct {
+	net.Listener
+	sc Script
+}
+
+func (l quitListener) Accept() (net.Conn, error) {
+	c, err := l.Listener.Accept()
+	if err != nil {
+		return nil, err
+	}
+	return wrapQuit(c, l.sc), nil
 }
